@@ -99,6 +99,26 @@ const HFixedSpec = "m(p(s,4,ascii,ascii.F,nil,d),bm(8,binary,binary.F,1)," +
 type HState struct {
 	Cur   *iso8583.Message
 	Other *iso8583.Message
+	// byte slices the library handed out (Pack results) and what they held at that moment: once
+	// returned they belong to the caller, no later operation may change them
+	handed [][]byte
+	copies [][]byte
+}
+
+func (st *HState) keep(b []byte) {
+	st.handed = append(st.handed, b)
+	st.copies = append(st.copies, append([]byte{}, b...))
+}
+
+// Changed reports the first handed-out slice whose content differs from what it was when it was
+// returned (-1: none).
+func (st *HState) Changed() int {
+	for i := range st.handed {
+		if !bytes.Equal(st.handed[i], st.copies[i]) {
+			return i
+		}
+	}
+	return -1
 }
 
 func guard(f func() string) (res string) {
@@ -387,6 +407,7 @@ func ApplyOp(st *HState, op string) string {
 			if err != nil {
 				return "err"
 			}
+			st.keep(b)
 			return "ok:" + Hex(b)
 		})
 	case op == "ids":
@@ -548,6 +569,10 @@ func runH(t []string, lastOnly bool) string {
 		line := last + " " + Observe(s.Cur)
 		if s.Other != nil {
 			line += " || " + Observe(s.Other)
+		}
+		if i := s.Changed(); i >= 0 {
+			// the model has no such outcome: results are values there
+			line += fmt.Sprintf(" RESULT-%d-OF-AN-EARLIER-PACK-CHANGED", i)
 		}
 		out = append(out, line)
 	}
